@@ -1,10 +1,14 @@
 package c08
 
 import (
+	"fmt"
 	"os"
+	"sync"
 	"testing"
+	"time"
 
 	"github.com/inbucket/inbucket/v3/pkg/extension"
+	"github.com/inbucket/inbucket/v3/pkg/storage"
 	"pgregory.net/rapid"
 	"verif/harness/hx"
 )
@@ -96,13 +100,167 @@ func run(c Case) *hx.Outcome {
 	return o
 }
 
-func TestProp(t *testing.T)    { prop.Check(t) }
-func TestRegress(t *testing.T) { prop.Regress(t) }
+// ---- drift: the accounting after a concurrent past ----------------------------------
+
+// WOp is one operation of a concurrent worker: deliver Size bytes to Box, remove the N-th
+// oldest message this case still believes live in Box, or purge Box.
+type WOp struct {
+	K    string `json:"k"`
+	Box  int    `json:"box"`
+	Size int    `json:"size,omitempty"`
+	N    int    `json:"n,omitempty"`
+}
+
+// DCase: a memory store with a size limit goes through a concurrent phase, is purged, and
+// must then behave exactly like a fresh store for a sequential history.
+type DCase struct {
+	Cap     int      `json:"cap"`
+	MaxKB   int      `json:"maxkb"`
+	Boxes   []string `json:"boxes"`
+	Workers [][]WOp  `json:"workers"`
+	Tail    []hx.Op  `json:"tail"`
+}
+
+var propDrift = hx.Prop[DCase]{
+	ID: pid, Name: "drift",
+	Rule: "mem store with maxkb in {1,2,4} (cap 0/2/3): 2-6 goroutines run 6-30 generated deliveries (60..1500 bytes), removals (biased to the " +
+		"oldest live message, i.e. the size enforcer's next victim) and purges concurrently; at quiescence stored bytes <= limit; then every mailbox " +
+		"is purged, one message of exactly the limit is delivered and must be retrievable (any positive drift evicts it), and a generated sequential " +
+		"history must match the reference model from the empty state step by step (negative drift shows as bytes over the limit); " +
+		"non-trivial = the concurrent phase contained a removal or purge and its deliveries exceeded the limit (evictions ran); distinct = distinct case JSON",
+	Quick: 150, Thorough: 1500,
+	Gen: func(t *rapid.T) DCase {
+		c := DCase{Cap: rapid.SampledFrom([]int{0, 0, 2, 3}).Draw(t, "cap"), MaxKB: rapid.SampledFrom([]int{1, 2, 2, 4}).Draw(t, "maxkb")}
+		c.Boxes = hx.BoxesGen(2, 3).Draw(t, "boxes")
+		wop := rapid.Custom(func(t *rapid.T) WOp {
+			o := WOp{K: rapid.SampledFrom([]string{"add", "add", "add", "remove", "remove", "purge"}).Draw(t, "k"), Box: rapid.IntRange(0, 2).Draw(t, "box")}
+			switch o.K {
+			case "add":
+				o.Size = rapid.SampledFrom([]int{60, 200, 300, 500, 700, 1000, 1500}).Draw(t, "size")
+			case "remove":
+				o.N = rapid.SampledFrom([]int{0, 0, 0, 1, 2, 5}).Draw(t, "n")
+			}
+			return o
+		})
+		c.Workers = rapid.SliceOfN(rapid.SliceOfN(wop, 6, 30), 2, 6).Draw(t, "workers")
+		og := hx.OpGen(kinds)
+		mg := hx.SizedMsgGen(sizes)
+		c.Tail = rapid.SliceOfN(rapid.Custom(func(t *rapid.T) hx.Op {
+			op := og.Draw(t, "op")
+			if op.K == "add" {
+				op.Msg = mg.Draw(t, "m")
+			}
+			return op
+		}), 3, 25).Draw(t, "tail")
+		return c
+	},
+	Run: runDrift,
+}
+
+func runDrift(c DCase) *hx.Outcome {
+	o := &hx.Outcome{}
+	st := hx.NewMem(extension.NewHost(), c.Cap, c.MaxKB)
+	limit := int64(c.MaxKB) * 1024
+	var mu sync.Mutex
+	live := map[string][]string{} // ids delivered and not yet asked to go, oldest first (a belief, not a model)
+	var delivered int64
+	cleared := false
+	var wg sync.WaitGroup
+	done := make(chan struct{})
+	for _, w := range c.Workers {
+		wg.Add(1)
+		go func(w []WOp) {
+			defer wg.Done()
+			for _, op := range w {
+				box := c.Boxes[op.Box%len(c.Boxes)]
+				switch op.K {
+				case "add":
+					id, err := st.AddMessage(hx.NewDelivery(box, nil, nil, hx.BaseTime, "w", make([]byte, op.Size)))
+					mu.Lock()
+					if err == nil {
+						live[box] = append(live[box], id)
+						delivered += int64(op.Size)
+					}
+					mu.Unlock()
+				case "remove":
+					mu.Lock()
+					id := ""
+					if l := live[box]; len(l) > 0 {
+						i := op.N % len(l)
+						id = l[i]
+						live[box] = append(append([]string{}, l[:i]...), l[i+1:]...)
+					}
+					cleared = true
+					mu.Unlock()
+					if id != "" {
+						_ = st.RemoveMessage(box, id) // may have been evicted already
+					}
+				case "purge":
+					mu.Lock()
+					live[box] = nil
+					cleared = true
+					mu.Unlock()
+					_ = st.PurgeMessages(box)
+				}
+			}
+		}(w)
+	}
+	go func() { wg.Wait(); close(done) }()
+	select {
+	case <-done:
+	case <-time.After(20 * time.Second):
+		o.Failf(pid+":hang", "[mem cap=%d maxkb=%d] the concurrent phase did not finish within 20 s", c.Cap, c.MaxKB)
+		return o
+	}
+	var total int64
+	_ = st.VisitMailboxes(func(ms []storage.Message) bool {
+		for _, m := range ms {
+			total += m.Size()
+		}
+		return true
+	})
+	if total > limit {
+		o.Failf(pid+":over-limit", "[mem cap=%d maxkb=%d] after the concurrent phase the store holds %d bytes, limit %d", c.Cap, c.MaxKB, total, limit)
+	}
+	for _, b := range c.Boxes {
+		if err := st.PurgeMessages(b); err != nil {
+			o.Failf(pid+":purge-error", "PurgeMessages(%q): %v", b, err)
+		}
+	}
+	// exactly the limit must fit into an empty store
+	id, err := st.AddMessage(hx.NewDelivery(c.Boxes[0], nil, nil, hx.BaseTime, "fit", make([]byte, limit)))
+	if m, gerr := st.GetMessage(c.Boxes[0], id); err != nil || gerr != nil || m == nil {
+		o.Failf(pid+":accounting-drift", "[mem cap=%d maxkb=%d] after a concurrent phase (%d workers) and a purge of every mailbox, a message of exactly the limit (%d bytes) "+
+			"is not kept by the empty store (add err %v, get err %v): the size accounting drifted upwards", c.Cap, c.MaxKB, len(c.Workers), limit, err, gerr)
+		return o
+	}
+	_ = st.PurgeMessages(c.Boxes[0])
+	s := &hx.Sys{Name: fmt.Sprintf("mem cap=%d maxkb=%d after a concurrent phase", c.Cap, c.MaxKB), Store: st, Model: hx.NewModel(c.Cap, limit), Boxes: c.Boxes}
+	for i, op := range c.Tail {
+		s.Apply(pid, op, o)
+		s.Check(pid, i, o)
+		if o.Failed() {
+			break
+		}
+	}
+	o.Class(fmt.Sprintf("%d workers", len(c.Workers)))
+	if delivered > limit {
+		o.Class("concurrent deliveries exceeded the limit")
+	}
+	if cleared {
+		o.Class("concurrent removal or purge")
+	}
+	o.NonTrivial = cleared && delivered > limit
+	return o
+}
+
+func TestProp(t *testing.T)    { prop.Check(t); propDrift.Check(t) }
+func TestRegress(t *testing.T) { prop.Regress(t); propDrift.Regress(t) }
 func TestReplay(t *testing.T) {
 	if *hx.ReplayPath == "" {
 		t.Skip("no -replay")
 	}
-	if !prop.Replay(t, *hx.ReplayPath) {
+	if !prop.Replay(t, *hx.ReplayPath) && !propDrift.Replay(t, *hx.ReplayPath) {
 		t.Fatalf("no prop matches %s", *hx.ReplayPath)
 	}
 }
